@@ -463,8 +463,10 @@ impl CodeGenerator {
             IRNode::Map {
                 input, projection, ..
             } => {
-                // For Map, check if output is binary
-                if projection.len() != 2 {
+                // For Map, the base case must be exactly the first two edge columns in order
+                // (extra edge columns dropped). Any other projection - e.g. `tc(X, Y) <- edge(Y, X)`
+                // - is not the plain closure of the edge relation.
+                if projection.as_slice() != [0, 1] {
                     return None;
                 }
                 match input.as_ref() {
@@ -525,8 +527,11 @@ impl CodeGenerator {
                     None
                 }
             }
-            // Also handle Map over Join (for projections)
-            IRNode::Map { input, .. } => match input.as_ref() {
+            // Also handle Map over Join (for projections). The join output is
+            // (edge.0, edge.1, rec.1); only the projection [0, 2] is `tc(X, Z)`.
+            IRNode::Map {
+                input, projection, ..
+            } if projection.as_slice() == [0, 2] => match input.as_ref() {
                 IRNode::Join {
                     left,
                     right,
